@@ -16,12 +16,19 @@
 //     not end are observed directly.
 //  3. (A) The schedules of TLC's counterexamples (tick while an event is being
 //     written; tick as the handler returns) are aimed at statistically.
+//  4. (H, hist.go) Histories of requests on one handler: a request whose k-th
+//     payload cannot be serialized, then ordinary requests - each of them must be
+//     a behaviour of a FRESH handler (Stream.tla: NextRequest / carry).
+//  5. (G, gen.go) `@defer` queries served by GENERATED code over the real
+//     multipart/mixed and SSE transports, deferred groups gated so that several
+//     payloads are pending in one aggregator flush, or each alone in its own.
 package main
 
 import (
 	"encoding/json"
 	"fmt"
 	"os"
+	"regexp"
 	"sort"
 	"strings"
 	"sync"
@@ -40,19 +47,64 @@ const (
 	maxDiagnosed  = 6
 )
 
+var (
+	t00  = time.Now()
+	laps = map[string]float64{}
+)
+
+// lap notes when a phase of the run ended (seconds since start).
+func lap(name string) {
+	laps[name] = float64(int(time.Since(t00).Seconds()*10)) / 10
+	fmt.Fprintf(os.Stderr, "C12: %-28s done at %6.1fs\n", name, time.Since(t00).Seconds())
+}
+
 func main() {
 	c := vlib.NewCheck("C12", "model_checking")
 	thorough := vlib.Tier() == "thorough"
 	st := &tlcStats{}
 
+	replay, stress := os.Getenv("VERIF_REPLAY") != "", os.Getenv("C12_STRESS") != ""
+	var scs, rGen []*Scenario
+	var rHist []*Scenario
+	if replay {
+		scs, rHist, rGen = replayScenarios(os.Getenv("VERIF_REPLAY"))
+	}
+	doHist := !stress && (!replay || len(rHist) > 0)
+	doGen := !stress && (!replay || len(rGen) > 0)
+
+	// the generated probe servers of phase G are built while TLC runs
+	type built struct {
+		bins map[string]string
+		vs   []vlib.Variant
+	}
+	genBuilt := make(chan built, 1)
+	if doGen {
+		go func() {
+			vs := genVariants(thorough)
+			if replay {
+				// only the layout the recorded stream was served by
+				var one []vlib.Variant
+				for _, v := range genVariants(true) {
+					if v.ID() == rGen[0].Gen.Variant {
+						one = append(one, v)
+					}
+				}
+				vs = one
+			}
+			bins := genBuild(vs)
+			fmt.Fprintf(os.Stderr, "C12: %-28s done at %6.1fs\n", "build of generated probes", time.Since(t00).Seconds())
+			genBuilt <- built{bins, vs}
+		}()
+	}
+
 	cex := modelChecks(c, thorough)
+	lap("model checks")
 	selfTest(st)
+	lap("trace self-test")
 
 	bin := buildServer()
-	var scs []*Scenario
-	if rp := os.Getenv("VERIF_REPLAY"); rp != "" {
-		scs = replayScenarios(rp)
-	} else {
+	lap("build of c12srv (race)")
+	if !replay {
 		scs = scenarios(vlib.Seed(), thorough)
 	}
 
@@ -82,6 +134,38 @@ func main() {
 			}()
 		}
 	}
+	// (H) histories run beside the sweeps, on two children of their own: the race-enabled server with all
+	// processors and a plain build on ONE processor
+	var hists []*history
+	var hkids []*child
+	histDone := make(chan struct{})
+	if doHist {
+		go func() {
+			defer close(histDone)
+			plain := buildPlainServer()
+			var hr, hp []*history
+			if replay {
+				hr, hp = replayHistories(rHist, "r", 8), replayHistories(rHist, "p", 8)
+			} else {
+				hr, hp = histories(vlib.Seed(), thorough, "r"), histories(vlib.Seed(), thorough, "p")
+			}
+			kr, kp := newChild("hist-race", bin), newChild("hist-plain1p", plain)
+			kp.env = []string{"GOMAXPROCS=1"}
+			// a fresh process per history: do not let the race runtime sleep a second at every exit (all
+			// streams of the history are over and the transport's goroutines have ended - run() waits for that)
+			kr.gorace = "atexit_sleep_ms=30"
+			hkids = []*child{kr, kp}
+			var hw sync.WaitGroup
+			hw.Add(2)
+			go func() { defer hw.Done(); runHistories(kr, hr, "race") }()
+			go func() { defer hw.Done(); runHistories(kp, hp, "plain-1p") }()
+			hw.Wait()
+			hists = append(hr, hp...)
+			fmt.Fprintf(os.Stderr, "C12: %-28s done at %6.1fs\n", "phase H (histories)", time.Since(t00).Seconds())
+		}()
+	} else {
+		close(histDone)
+	}
 	var withKA, others, oneP []*Scenario
 	for _, s := range scs {
 		if s.OneP {
@@ -100,24 +184,52 @@ func main() {
 		pool("p1", 1, oneP, "GOMAXPROCS=1")
 		wg.Wait()
 	}
+	lap("sweeps and gate scenarios")
 
 	// (A) aim at the counterexample schedules
-	if os.Getenv("VERIF_REPLAY") == "" {
+	if !replay {
 		more, k := targeted(c, bin, cex, thorough)
 		scs = append(scs, more...)
 		kids = append(kids, k...)
+		lap("targeted replay")
 	}
 
-	judge(c, scs, kids, st)
+	<-histDone
+	kids = append(kids, hkids...)
+	for _, h := range hists {
+		scs = append(scs, h.Steps...)
+	}
+	lap("phase H joined")
+	if doGen {
+		// (G) generated code over the real transports
+		b := <-genBuilt
+		var gs []*Scenario
+		var gdirs []string
+		if replay {
+			gs, gdirs = genReplay(b.bins, b.vs, rGen[0], 12)
+		} else {
+			gs, gdirs = genPhase(b.bins, b.vs, thorough)
+		}
+		scs = append(scs, gs...)
+		genRaces(c, gdirs)
+		lap("phase G (generated @defer)")
+	}
+
+	judge(c, scs, kids, hists, st)
+	lap("judging (TLC trace validation)")
+	c.Set("phase_end_s", laps)
 	c.AddStates(st.distinct, st.generated)
 	c.Set("tlc_trace_runs", st.runs)
 	c.Set("distinct_traces_decided_by_tlc", st.distinctTraces)
-	c.Set("rule", "exhaustive TLC check of Stream.tla (payload counts x interleavings of source, writer, keep-alive ticks, flush ticks, finishRequest, client disconnect); "+
+	c.Set("rule", "exhaustive TLC check of Stream.tla (payload counts x position of a payload that cannot be serialized x interleavings of source, writer, keep-alive ticks, flush ticks, finishRequest, client disconnect; histories of two requests on one handler); "+
 		"conformance: one case = one real streamed response (transport, keep-alive/flush interval on a seeded geometric sweep 1us..10ms, payload count 0..4, payload sizes 8B..70KB, seeded production delays, optional client cut after k bytes); "+
-		"a class = (scenario class, transport, payload count, interval decade, cut or not, token shape: pings seen / batch sizes)")
+		"phase H: one case = one request of a history served by one server process (first request: payload k of n cannot be serialized, k = every position, Data not JSON / extension not marshallable, SSE with and without keep-alive and multipart; then ordinary requests of both transports), on a race-enabled server and on a plain one confined to one processor; "+
+		"phase G: one case = one @defer query served by generated code (2 generator layouts) over the real multipart/mixed or SSE transport, deferred groups gated into one flush interval or one interval each, payload lengths equal/shrinking/growing/beyond 64 bytes; "+
+		"a class = (scenario class, transport, payload count, interval decade, cut or not, failing position, position in history, token shape: pings seen / batch sizes)")
 	c.Assume("the Go race detector reports an unsynchronised access pair when both accesses execute in the observed run (no false positives)")
 	c.Assume("net/http writes the bytes handed to ResponseWriter.Write in call order for a single writer; chunk boundaries are not part of the property")
-	c.Assume("payload JSON is produced by a hand-written ExecutableSchema (no code generation): C12 is about framing, not about executor output")
+	c.Assume("sweeps, gate replays and histories: payload JSON comes from a hand-written ExecutableSchema; phase G: from the code the tree's generator produces for harness/probes/exec (two layouts), resolvers plan-driven (harness/ur)")
+	c.Assume("a request whose payload cannot be serialized is served as the code serves it today (no `complete` / no closing boundary, a bare error object): Stream.tla models it (MEncodeFail, FlushOutFail, MBlob) instead of judging it")
 	c.Finish()
 }
 
@@ -148,6 +260,7 @@ func modelChecks(c *vlib.Check, thorough bool) cexSet {
 	if thorough {
 		var zero []string
 		for _, a := range []string{"MWriteBegin", "MWriteEnd", "MFlushBegin", "MFlushEnd", "MStartKA", "MRecv", "MRecvNil", "MReset", "MClose", "Tick",
+			"MEncodeFail", "MPanicClose", "MPFlushBegin", "MPFlushEnd", "MBlobBegin", "MBlobEnd",
 			"KPingBegin", "KPingEnd", "KFlushBegin", "KFlushEnd", "KStop", "ServerCancel", "FinBegin", "FinEnd", "Disconnect",
 			"MMRecvAdd", "MMRecvNil", "MMDoneSig", "MMDoneFlush", "MMTick", "MMFlushTick", "MMTickerStop"} {
 			if res.ActionCount[a] == 0 {
@@ -159,75 +272,105 @@ func modelChecks(c *vlib.Check, thorough bool) cexSet {
 		}
 	}
 
-	// the pinned sse.go: TLC must find each counterexample
+	// The small runs - deviating designs TLC must refute, and what must still hold in them - go side by
+	// side, one worker each, at most four at a time.
 	out := cexSet{}
+	var omu sync.Mutex
+	type job struct {
+		name, cfg string
+		edit      func(string) string
+		mustFail  string // the invariant TLC must report as violated ("" = the run must pass)
+		what      string // for the message when the expectation is not met
+		cexKey    string
+		cover     bool
+		after     func(r *vlib.TLCResult)
+	}
+	reInv := regexp.MustCompile(`(?m)^INVARIANTS .*$`)
+	hedit := func(cfg string) string {
+		if thorough {
+			cfg = strings.Replace(cfg, "\n  MaxN = 2", "\n  MaxN = 3", 1)
+			cfg = strings.Replace(cfg, "\n  FailSet = {0, 1, 2, 3}", "\n  FailSet = {0, 1, 2, 3, 4}", 1)
+		}
+		return cfg
+	}
+	var jobs []job
+	// the pinned sse.go: TLC must find each counterexample
 	for _, inv := range []string{"NoRace", "NoSplice", "CompleteLast", "NoUseAfterFinish"} {
 		inv := inv
-		r, err := vlib.RunTLC(vlib.TLCOpts{Module: "Stream", Config: "MC_Stream_cur.cfg", Workers: 1,
-			CfgEdit: func(cfg string) string { return strings.Replace(cfg, "INVARIANT NoSplice", "INVARIANT "+inv, 1) },
-			Scratch: vlib.Work("C12", "mc-cur-"+inv), Timeout: 10 * time.Minute})
-		if err != nil {
-			vlib.Infra("tlc: %v", err)
-		}
-		if r.OK || !strings.Contains(r.Output, "Invariant "+inv+" is violated") {
-			vlib.Infra("specification regression: the model of the pinned sse.go (LockWrites = StopKA = FALSE) no longer violates %s:\n%s", inv, tailStr(r.Output, 1500))
-		}
-		out[inv] = counterexample(r.Output)
-		c.AddStates(r.Distinct, r.Generated)
+		jobs = append(jobs, job{name: "mc-cur-" + inv, cfg: "MC_Stream_cur.cfg", mustFail: inv, cexKey: inv,
+			edit: func(cfg string) string { return strings.Replace(cfg, "INVARIANT NoSplice", "INVARIANT "+inv, 1) },
+			what: "the model of the pinned sse.go (LockWrites = StopKA = FALSE)"})
 	}
 	// holding mu around write + flush alone removes the splice (stopping the keep-alive
 	// writer WITHOUT the lock does not remove the use-after-finish: a ping begun before
 	// `complete` still flushes after net/http finished the request - TLC shows it -
 	// so the repair needs both)
-	for _, h := range []struct {
-		lock, stop bool
-		inv        string
-	}{{true, false, "NoSplice"}} {
-		h := h
-		r, err := vlib.RunTLC(vlib.TLCOpts{Module: "Stream", Config: "MC_Stream_cur.cfg", Workers: 2,
-			CfgEdit: func(cfg string) string {
-				cfg = strings.Replace(cfg, "INVARIANT NoSplice", "INVARIANT "+h.inv, 1)
-				if h.lock {
-					cfg = strings.Replace(cfg, "LockWrites = FALSE", "LockWrites = TRUE", 1)
-				}
-				if h.stop {
-					cfg = strings.Replace(cfg, "StopKA = FALSE", "StopKA = TRUE", 1)
-				}
-				return cfg
-			},
-			Scratch: vlib.Work("C12", "mc-half-"+h.inv), Timeout: 10 * time.Minute})
-		if err != nil {
-			vlib.Infra("tlc: %v", err)
-		}
-		if !r.OK {
-			vlib.Infra("specification regression: half-repaired model (LockWrites=%v StopKA=%v) violates %s:\n%s", h.lock, h.stop, h.inv, r.Violation)
-		}
-		c.AddStates(r.Distinct, r.Generated)
-	}
+	jobs = append(jobs, job{name: "mc-half-NoSplice", cfg: "MC_Stream_cur.cfg", what: "the half-repaired model (LockWrites only), NoSplice",
+		edit: func(cfg string) string {
+			return strings.Replace(cfg, "LockWrites = FALSE", "LockWrites = TRUE", 1)
+		}})
 	// the half-repaired design (complete and closed in two critical sections): CompleteLast must be
 	// refuted, everything else must hold - the model tells the three designs apart
-	sp, err := vlib.RunTLC(vlib.TLCOpts{Module: "Stream", Config: "MC_Stream_split.cfg", Workers: 1,
-		Scratch: vlib.Work("C12", "mc-split-CompleteLast"), Timeout: 10 * time.Minute})
-	if err != nil {
-		vlib.Infra("tlc: %v", err)
+	jobs = append(jobs, job{name: "mc-split-CompleteLast", cfg: "MC_Stream_split.cfg", mustFail: "CompleteLast", cexKey: "CompleteLast(split-close)",
+		what: "the split-close design (CloseAtomic = FALSE)"})
+	jobs = append(jobs, job{name: "mc-split-rest", cfg: "MC_Stream_split.cfg", what: "the split-close design, everything but CompleteLast",
+		edit: func(cfg string) string {
+			return strings.Replace(cfg, "INVARIANT CompleteLast", "INVARIANTS TypeOK NoRace NoSplice NoUseAfterFinish InOrder PreFirst SseFailed NoGarbage", 1)
+		}})
+	// multipart AS THE CODE IS, one payload cannot be encoded: NoCrash must be refuted (the ticker goroutine's
+	// flush panics, nothing recovers it), everything else must hold
+	jobs = append(jobs, job{name: "mc-mmfail-NoCrash", cfg: "MC_Stream_mmfail.cfg", mustFail: "NoCrash", cexKey: "NoCrash(multipart, payload that cannot be encoded)",
+		what: "multipart as the code is (MmEncodeInAdd = FALSE)"})
+	jobs = append(jobs, job{name: "mc-mmfail-rest", cfg: "MC_Stream_mmfail.cfg", what: "multipart as the code is, everything but NoCrash",
+		edit: func(cfg string) string {
+			return strings.Replace(cfg, "INVARIANT NoCrash", "INVARIANTS TypeOK MmFramed MmOrder MmNoEmpty MmComplete MmFailed NoGarbage", 1)
+		}})
+	// HISTORIES: two requests on one handler. The code as it is shares nothing between requests: every
+	// per-stream invariant holds in every request + NoGarbage. The deviating design SharedBuf must be refuted.
+	jobs = append(jobs, job{name: "mc-hist", cfg: "MC_StreamHist.cfg", edit: hedit, cover: thorough, what: "Stream.tla, histories of two requests, the code as it is",
+		after: func(hh *vlib.TLCResult) {
+			if thorough && hh.ActionCount["NextRequest"] == 0 {
+				vlib.Infra("vacuous model check: NextRequest never taken in MC_StreamHist.cfg")
+			}
+			c.Set("mc_histories", map[string]any{"requests": 2, "distinct": hh.Distinct, "generated": hh.Generated, "depth": hh.Depth, "wall_s": hh.WallS})
+		}})
+	jobs = append(jobs, job{name: "mc-hist-shared", cfg: "MC_StreamHist.cfg", mustFail: "NoGarbage", cexKey: "NoGarbage(shared scratch buffer)",
+		what: "the design with serialization scratch shared between requests (SharedBuf = TRUE)",
+		edit: func(cfg string) string {
+			cfg = strings.Replace(cfg, "\n  SharedBuf = FALSE", "\n  SharedBuf = TRUE", 1)
+			return reInv.ReplaceAllString(cfg, "INVARIANT NoGarbage")
+		}})
+	sem := make(chan struct{}, 4)
+	var jw sync.WaitGroup
+	for _, j := range jobs {
+		j := j
+		jw.Add(1)
+		go func() {
+			defer jw.Done()
+			sem <- struct{}{}
+			defer func() { <-sem }()
+			r, err := vlib.RunTLC(vlib.TLCOpts{Module: "Stream", Config: j.cfg, Workers: 1, CfgEdit: j.edit, Coverage: j.cover,
+				Scratch: vlib.Work("C12", j.name), Timeout: 15 * time.Minute})
+			if err != nil {
+				vlib.Infra("tlc (%s): %v", j.name, err)
+			}
+			if j.mustFail != "" {
+				if r.OK || !strings.Contains(r.Output, "Invariant "+j.mustFail+" is violated") {
+					vlib.Infra("specification regression: %s no longer violates %s:\n%s", j.what, j.mustFail, tailStr(r.Output, 1500))
+				}
+				omu.Lock()
+				out[j.cexKey] = counterexample(r.Output)
+				omu.Unlock()
+			} else if !r.OK {
+				vlib.Infra("specification regression: %s fails its model check (a specification error, not a verdict on the code):\n%s", j.what, r.Violation)
+			}
+			c.AddStates(r.Distinct, r.Generated)
+			if j.after != nil {
+				j.after(r)
+			}
+		}()
 	}
-	if sp.OK || !strings.Contains(sp.Output, "Invariant CompleteLast is violated") {
-		vlib.Infra("specification regression: the split-close design (CloseAtomic = FALSE) no longer violates CompleteLast:\n%s", tailStr(sp.Output, 1500))
-	}
-	out["CompleteLast(split-close)"] = counterexample(sp.Output)
-	c.AddStates(sp.Distinct, sp.Generated)
-	so, err := vlib.RunTLC(vlib.TLCOpts{Module: "Stream", Config: "MC_Stream_split.cfg", Workers: 2,
-		CfgEdit: func(cfg string) string {
-			return strings.Replace(cfg, "INVARIANT CompleteLast", "INVARIANTS TypeOK NoRace NoSplice NoUseAfterFinish InOrder PreFirst", 1)
-		},
-		Scratch: vlib.Work("C12", "mc-split-rest"), Timeout: 10 * time.Minute})
-	if err != nil {
-		vlib.Infra("tlc: %v", err)
-	}
-	if !so.OK {
-		vlib.Infra("specification regression: the split-close design violates more than CompleteLast:\n%s", so.Violation)
-	}
-	c.AddStates(so.Distinct, so.Generated)
+	jw.Wait()
 	c.Set("tlc_counterexamples_deviating_designs", out)
 	return out
 }
@@ -283,6 +426,35 @@ func selfTest(st *tlcStats) {
 		mk("mm", 1, false, "clean", 2, bnd, hdr, ini("t"), bnd, hdr, inc("t"), bnd, hdr, inc("f", 1), cls), // empty incremental part
 		mk("mm", 0, false, "clean", 1, bnd, hdr, ini("f")),                                                 // closing boundary omitted without deferred payloads
 	}
+	// a payload that cannot be serialized (fail = position), requests of a history (pos)
+	blob := T("errblob", 0, nil, "-")
+	fl := func(s *Scenario, fail, pos int) *Scenario { s.FailAt, s.Pos = fail, pos; return s }
+	good = append(good,
+		fl(mk("sse", 3, false, "clean", 2, pre, nx(1), blob), 2, 1),
+		fl(mk("sse", 3, true, "clean", 1, pre, ping, blob), 1, 1),
+		fl(mk("mm", 2, false, "clean", 3, bnd, hdr, blob), 1, 1),                         // the initial payload, in Done's flush
+		fl(mk("mm", 2, false, "clean", 3, bnd, hdr, ini("t"), bnd, hdr, blob), 2, 1),      // all three in Done's flush
+		fl(mk("mm", 2, false, "clean", 3, bnd, hdr, ini("t"), bnd, hdr, inc("t", 1), bnd, hdr, blob), 3, 1),
+		fl(mk("sse", 2, false, "clean", 2, pre, nx(1), nx(2), cpl), 0, 2), // a later request of a history
+	)
+	bad = append(bad,
+		fl(mk("sse", 3, false, "clean", 2, pre, nx(1), blob), 0, 1),                   // an error object nobody asked for
+		fl(mk("sse", 3, false, "clean", 2, pre, nx(1), nx(2), blob), 2, 1),            // the payload that cannot be encoded was delivered
+		fl(mk("sse", 3, false, "clean", 2, pre, nx(1), blob, cpl), 2, 1),              // something after the error object
+		fl(mk("sse", 3, false, "clean", 2, pre, blob), 2, 1),                          // an earlier payload lost
+		fl(mk("sse", 2, false, "clean", 2, pre, T("bad", 0, nil, "-"), nx(2), cpl), 0, 2), // a later request with a garbled event
+		fl(mk("mm", 2, false, "clean", 3, bnd, hdr, ini("t"), bnd, hdr, inc("f", 1, 2), cls), 2, 1), // delivered although it cannot be encoded
+		fl(mk("mm", 2, false, "clean", 3, bnd, hdr, ini("t"), bnd, hdr, blob, cls), 2, 1),
+	)
+	// the deviating design SharedBuf must explain exactly the garbled event of a request that FOLLOWS a failed one
+	hA := fl(mk("sse", 3, false, "clean", 1, pre, blob), 1, 1)
+	hB := fl(mk("sse", 2, false, "clean", 2, pre, T("bad", 0, nil, "-"), nx(2), cpl), 0, 2)
+	hC := fl(mk("sse", 2, false, "clean", 2, pre, nx(1), nx(2), cpl), 0, 1)
+	hD := fl(mk("sse", 2, false, "clean", 2, pre, T("bad", 0, nil, "-"), nx(2), cpl), 0, 2)
+	sh := acceptedShared([][]*Scenario{{hA, hB}, {hC, hD}}, st)
+	if !sh[hA] || !sh[hB] || !sh[hC] || sh[hD] {
+		vlib.Infra("StreamTrace self-test (SharedBuf): accepted = A %v, B-after-failed-A %v (want true), C %v, D-after-ordinary-C %v (want false)", sh[hA], sh[hB], sh[hC], sh[hD])
+	}
 	all := append(append([]*Scenario{}, good...), bad...)
 	acc := accepted(all, true, true, true, "selftest", st)
 	for i, s := range good {
@@ -297,7 +469,10 @@ func selfTest(st *tlcStats) {
 	}
 }
 
-func replayScenarios(path string) []*Scenario {
+// replayScenarios reads the scenario a violation recorded: a plain stream (25 repetitions on the
+// sweep's children), a request of a history (the whole history is served again, see
+// replayHistories), or a stream of phase G (genReplay).
+func replayScenarios(path string) (plain, hist, gen []*Scenario) {
 	b, err := os.ReadFile(path)
 	if err != nil {
 		vlib.Infra("replay: %v", err)
@@ -308,6 +483,18 @@ func replayScenarios(path string) []*Scenario {
 	if err := json.Unmarshal(b, &rec); err != nil || rec.Scenario.Kind == "" {
 		vlib.Infra("replay: %s holds no scenario (%v)", path, err)
 	}
+	if rec.Scenario.Gen != nil {
+		s := rec.Scenario
+		return nil, nil, []*Scenario{&s}
+	}
+	if rec.Scenario.Hist != "" {
+		steps := rec.Scenario.HistSteps
+		if len(steps) == 0 {
+			s := rec.Scenario
+			steps = []*Scenario{&s}
+		}
+		return nil, steps, nil
+	}
 	var out []*Scenario
 	for i := 0; i < 25; i++ {
 		s := rec.Scenario
@@ -315,6 +502,24 @@ func replayScenarios(path string) []*Scenario {
 		s.Direct, s.Toks, s.Produced = nil, nil, nil
 		s.Crashed, s.Stderr = false, ""
 		out = append(out, &s)
+	}
+	return out, nil, nil
+}
+
+// replayHistories: the recorded history, reps times.
+func replayHistories(steps []*Scenario, tag string, reps int) []*history {
+	var out []*history
+	for i := 0; i < reps; i++ {
+		h := &history{ID: fmt.Sprintf("replay-%s%d", tag, i)}
+		for j, st := range steps {
+			s := *st
+			s.ID = fmt.Sprintf("replay-%s%d-%d", tag, i, j)
+			s.Hist = h.ID
+			s.HistSteps, s.Direct, s.Toks, s.Produced, s.Gate = nil, nil, nil, nil, nil
+			s.Crashed, s.Stderr, s.Verdict, s.EOF = false, "", "", ""
+			h.Steps = append(h.Steps, &s)
+		}
+		out = append(out, h)
 	}
 	return out
 }
@@ -366,8 +571,18 @@ func summary(s *Scenario) map[string]any {
 			ks = append(ks, t.K)
 		}
 	}
-	return map[string]any{"id": s.ID, "class": s.Class, "kind": s.Kind, "interval_ns": s.IntervalNs, "n": s.N, "sizes": s.Sizes,
+	m := map[string]any{"id": s.ID, "class": s.Class, "kind": s.Kind, "interval_ns": s.IntervalNs, "n": s.N, "sizes": s.Sizes,
 		"delays_ns": s.DelaysNs, "cut_at": s.CutAt, "tokens": strings.Join(ks, " "), "eof": s.EOF}
+	if s.Hist != "" {
+		m["history"], m["pos"], m["fail_at"], m["fail_mode"], m["server"] = s.Hist, s.Pos, s.FailAt, s.FailMode, s.Server
+	}
+	if g := s.Gen; g != nil {
+		m["variant"], m["query"], m["order"], m["transport"], m["lens"], m["produced"] = g.Variant, g.Query, g.Order, g.Transport, g.Lens, g.ProducedKeys
+		if len(g.Notes) > 0 {
+			m["notes"] = g.Notes
+		}
+	}
+	return m
 }
 
 func describe(s *Scenario) string {
@@ -384,18 +599,32 @@ func describe(s *Scenario) string {
 	return d
 }
 
-func judge(c *vlib.Check, scs []*Scenario, kids []*child, st *tlcStats) {
+func judge(c *vlib.Check, scs []*Scenario, kids []*child, hists []*history, st *tlcStats) {
+	// the replay object of a violation: the stream; for a request of a history, the whole history
+	ro := func(s *Scenario) any {
+		if s.Hist != "" {
+			return withHistory(s, hists)
+		}
+		return s
+	}
 	byClass := map[string]int{}
 	var live []*Scenario
 	var gates []map[string]any
-	crashes, handoffs, onePs := 0, 0, 0
+	crashes, handoffs, onePs, mmCrashes := 0, 0, 0, 0
 	for _, s := range scs {
 		c.AddEvals(1)
 		byClass[s.Class]++
-		c.Class(fmt.Sprintf("%s|%s|n%d|%s|cut=%v|%s", s.Class, s.Kind, s.N, decade(s.IntervalNs), s.CutAt >= 0, shape(s)))
+		cls := fmt.Sprintf("%s|%s|n%d|%s|cut=%v|%s", s.Class, s.Kind, s.N, decade(s.IntervalNs), s.CutAt >= 0, shape(s))
+		if s.Hist != "" {
+			cls += fmt.Sprintf("|fail=%d%s|pos=%d|%s", s.FailAt, s.FailMode, s.Pos, s.Server)
+		}
+		if s.Gen != nil {
+			cls += "|" + s.Gen.Variant + "|" + s.Gen.Lens
+		}
+		c.Class(cls)
 		for _, d := range s.Direct {
 			kv := strings.SplitN(d, "|", 2)
-			c.Violate(kv[0], kv[1]+"\n"+describe(s), s)
+			c.Violate(kv[0], kv[1]+"\n"+describe(s), ro(s))
 		}
 		if g := s.Gate; s.Hold != "" && g != nil {
 			gates = append(gates, map[string]any{"hold": s.Hold, "interval_ns": s.IntervalNs, "held": g.Held, "other_write_entered_while_held": g.Met,
@@ -407,19 +636,19 @@ func judge(c *vlib.Check, scs []*Scenario, kids []*child, st *tlcStats) {
 				}
 			}
 			if len(ov) > 0 {
-				c.Violate(keyRaceWrite, fmt.Sprintf("gate writer (hold=%s): while one goroutine's call on the ResponseWriter was in progress another one entered (in progress|entering): %v - TLC's counterexample to NoRace / NoSplice replayed deterministically\n%s", s.Hold, ov, describe(s)), s)
+				c.Violate(keyRaceWrite, fmt.Sprintf("gate writer (hold=%s): while one goroutine's call on the ResponseWriter was in progress another one entered (in progress|entering): %v - TLC's counterexample to NoRace / NoSplice replayed deterministically\n%s", s.Hold, ov, describe(s)), ro(s))
 			}
 			if len(g.AfterFinal) > 0 {
 				if s.Kind == "sse" {
-					c.Violate(keyLatePing, fmt.Sprintf("gate writer (hold=%s): after the Write of `event: complete` had entered, further Write calls arrived: %v\n%s", s.Hold, g.AfterFinal, describe(s)), s)
+					c.Violate(keyLatePing, fmt.Sprintf("gate writer (hold=%s): after the Write of `event: complete` had entered, further Write calls arrived: %v\n%s", s.Hold, g.AfterFinal, describe(s)), ro(s))
 				} else {
-					c.Violate("mm:write-after-closing-boundary", fmt.Sprintf("gate writer (hold=%s): after the Write of the closing delimiter had entered, further Write calls arrived: %v\n%s", s.Hold, g.AfterFinal, describe(s)), s)
+					c.Violate("mm:write-after-closing-boundary", fmt.Sprintf("gate writer (hold=%s): after the Write of the closing delimiter had entered, further Write calls arrived: %v\n%s", s.Hold, g.AfterFinal, describe(s)), ro(s))
 				}
 			}
 			if len(g.AfterReturn) > 0 && s.Kind == "mm" {
-				c.Violate("mm:responsewriter-used-after-handler-returned", fmt.Sprintf("gate writer (hold=%s): after transport.MultipartMixed.Do had returned the ResponseWriter was still used: %v\n%s", s.Hold, g.AfterReturn, describe(s)), s)
+				c.Violate("mm:responsewriter-used-after-handler-returned", fmt.Sprintf("gate writer (hold=%s): after transport.MultipartMixed.Do had returned the ResponseWriter was still used: %v\n%s", s.Hold, g.AfterReturn, describe(s)), ro(s))
 			} else if len(g.AfterReturn) > 0 {
-				c.Violate(keyRaceFinish, fmt.Sprintf("gate writer (hold=%s): after transport.SSE.Do had returned the ResponseWriter was still used: %v - TLC's counterexample to CompleteLast / NoUseAfterFinish replayed deterministically\n%s", s.Hold, g.AfterReturn, describe(s)), s)
+				c.Violate(keyRaceFinish, fmt.Sprintf("gate writer (hold=%s): after transport.SSE.Do had returned the ResponseWriter was still used: %v - TLC's counterexample to CompleteLast / NoUseAfterFinish replayed deterministically\n%s", s.Hold, g.AfterReturn, describe(s)), ro(s))
 			}
 			if s.OneP && !strings.HasSuffix(s.Hold, "flush:complete") && len(g.AfterHold) > 0 && strings.HasPrefix(g.AfterHold[len(g.AfterHold)-1], "ping@") {
 				handoffs++ // the parked keepAlive was handed mu the moment the second slow section ended
@@ -437,9 +666,17 @@ func judge(c *vlib.Check, scs []*Scenario, kids []*child, st *tlcStats) {
 			crashes++
 			se := s.Stderr
 			if strings.Contains(se, "panic:") && strings.Contains(se, "(*sseConnection).keepAlive") && s.ka() {
-				c.Violate(keyCrash, "the server process died: panic on the sseConnection.keepAlive goroutine, which used the ResponseWriter after net/http had finished the request\n"+describe(s)+"\n"+tailStr(se, 1800), s)
+				c.Violate(keyCrash, "the server process died: panic on the sseConnection.keepAlive goroutine, which used the ResponseWriter after net/http had finished the request\n"+describe(s)+"\n"+tailStr(se, 1800), ro(s))
+			} else if s.Gen == nil && s.Kind == "mm" && s.FailAt > 0 && strings.Contains(se, "panic:") && strings.Contains(se, "newMultipartResponseAggregator.func1") &&
+				strings.Contains(se, "(*multipartResponseAggregator).flush") && (strings.Contains(se, "transport.writeJson") || strings.Contains(se, "transport.writeIncrementalJson")) {
+				// Stream.tla: MMFlushTick with FailIn -> crashed (NoCrash, refuted for the code as it is by MC_Stream_mmfail.cfg)
+				mmCrashes++
+				c.Violate(keyMMCrash, fmt.Sprintf("the server process died: payload %d of a multipart/mixed response cannot be serialized (%s) and the aggregator's TICKER goroutine was the one to flush it - the panic of writeJson / writeIncrementalJson is on a goroutine nobody recovers (in Done's flush the same panic is recovered by handler.Server)\n", s.FailAt, s.FailMode)+describe(s)+"\n"+tailStr(se, 1800), ro(s))
+				continue // a dead process' stream is not validated (Stream.tla: crashed)
+			} else if s.Gen != nil {
+				c.Violate("gen-defer:server-crash{"+s.Kind+"}", "the server process died while serving a @defer query from generated code\n"+describe(s)+"\n"+tailStr(se, 2400), ro(s))
 			} else {
-				c.Violate("server-crash{"+s.Kind+"}", "the server process died while serving\n"+describe(s)+"\n"+tailStr(se, 1800), s)
+				c.Violate("server-crash{"+s.Kind+"}", "the server process died while serving\n"+describe(s)+"\n"+tailStr(se, 1800), ro(s))
 			}
 		}
 		if s.EOF == "" {
@@ -449,6 +686,7 @@ func judge(c *vlib.Check, scs []*Scenario, kids []*child, st *tlcStats) {
 	}
 	c.Set("streams_by_class", byClass)
 	c.Set("server_crashes", crashes)
+	c.Set("server_crashes_unencodable_payload_in_ticker_flush", mmCrashes)
 	c.Set("gate_replays", gates)
 	c.Set("one_processor_handoffs_demonstrated", handoffs)
 	if onePs > 0 && handoffs == 0 && c.Violations() == 0 {
@@ -496,7 +734,7 @@ func judge(c *vlib.Check, scs []*Scenario, kids []*child, st *tlcStats) {
 				n++
 				s.Verdict = tag
 				for _, k := range keys {
-					c.Violate(k, "the token sequence is a behaviour of a DEVIATING design of Stream.tla only (LockWrites="+fmt.Sprint(lock)+", StopKA="+fmt.Sprint(stop)+", CloseAtomic="+fmt.Sprint(atomic)+"), not of the property\n"+describe(s), s)
+					c.Violate(k, "the token sequence is a behaviour of a DEVIATING design of Stream.tla only (LockWrites="+fmt.Sprint(lock)+", StopKA="+fmt.Sprint(stop)+", CloseAtomic="+fmt.Sprint(atomic)+"), not of the property\n"+describe(s), ro(s))
 				}
 			} else {
 				rest = append(rest, s)
@@ -506,6 +744,9 @@ func judge(c *vlib.Check, scs []*Scenario, kids []*child, st *tlcStats) {
 		c.Set("explained_only_by_"+tag, n)
 		return rest
 	}
+	// histories: a rejected request that FOLLOWS a failed serialization on the same server process - is it a
+	// behaviour of the deviating design SharedBuf (an event assembled on the residue of the failed one)?
+	rej = judgeHistories(c, hists, strict, rej, st)
 	// (locked, stopped, but `complete` and `closed` in two critical sections) - a ping parked on mu lands after `complete`
 	rest := stage(rej, true, true, false, "late-ping-before-close", keyLatePing)
 	rest = stage(rest, true, false, true, "late-ping", keyLatePing)
@@ -560,6 +801,7 @@ func judge(c *vlib.Check, scs []*Scenario, kids []*child, st *tlcStats) {
 	}
 	c.Set("race_reports", nrace)
 
+	phaseEvidence(c, scs, hists)
 	// non-vacuity of the run itself
 	if os.Getenv("VERIF_REPLAY") == "" && c.Violations() == 0 {
 		if okByClass["sse-plain"] == 0 || okByClass["mm"] == 0 {
@@ -731,4 +973,191 @@ func targeted(c *vlib.Check, bin string, cex cexSet, thorough bool) ([]*Scenario
 	result["tick-at-return"] = map[string]any{"tlc_schedule": cex["NoUseAfterFinish"], "interval_ns": T, "streams": iters, "observed": m2}
 	c.Set("targeted_replay", result)
 	return all, kids
+}
+
+// judgeHistories names the deviation of strictly rejected requests that follow a failed serialization
+// on the same server process: TLC decides the whole history against Stream's SharedBuf design. Returns
+// the rejected streams it could not explain that way.
+func judgeHistories(c *vlib.Check, hists []*history, strict map[*Scenario]bool, rej []*Scenario, st *tlcStats) []*Scenario {
+	isRej := map[*Scenario]bool{}
+	for _, s := range rej {
+		isRej[s] = true
+	}
+	var suspects [][]*Scenario
+	for _, h := range hists {
+		failedBefore, hit := false, false
+		for _, s := range h.Steps {
+			if isRej[s] && s.Pos > 1 && failedBefore {
+				hit = true
+			}
+			if s.FailAt > 0 && !s.Crashed {
+				failedBefore = true
+			}
+			if s.Crashed {
+				failedBefore = false
+			}
+		}
+		if hit {
+			suspects = append(suspects, h.Steps)
+		}
+	}
+	if len(suspects) == 0 {
+		c.Set("explained_only_by_shared-buffer-residue", 0)
+		return rej
+	}
+	acc := acceptedShared(suspects, st)
+	var rest []*Scenario
+	n := 0
+	for _, s := range rej {
+		if s.Hist != "" && s.Pos > 1 && acc[s] {
+			n++
+			s.Verdict = "shared-buffer-residue"
+			var before []string
+			for _, h := range hists {
+				if h.ID == s.Hist {
+					for _, p := range h.Steps {
+						if p == s {
+							break
+						}
+						b, _ := json.Marshal(summary(p))
+						before = append(before, string(b))
+					}
+				}
+			}
+			c.Violate(keyHistStale, "a request served AFTER a request whose payload could not be serialized, by the same server process, is not the stream a fresh handler produces: its token sequence is a behaviour of the DEVIATING design SharedBuf = TRUE of Stream.tla only (an event assembled on what the failed serialization left in memory the handler shares between requests)\n"+
+				describe(s)+"\n  earlier requests of this history:\n    "+strings.Join(before, "\n    "), withHistory(s, hists))
+		} else {
+			rest = append(rest, s)
+		}
+	}
+	c.AddTraces(int64(n))
+	c.Set("explained_only_by_shared-buffer-residue", n)
+	return rest
+}
+
+// phaseEvidence describes phases H and G in the evidence and checks that they exercised what they are for.
+func phaseEvidence(c *vlib.Check, scs []*Scenario, hists []*history) {
+	if len(hists) == 0 {
+		return
+	}
+	type hstat struct {
+		Histories, FailServedSSE, FailServedMM, FailCrashed, LaterStrict, LaterRejected int
+	}
+	hs := map[string]*hstat{}
+	for _, h := range hists {
+		sv := "?"
+		if len(h.Steps) > 0 {
+			sv = h.Steps[0].Server
+		}
+		if hs[sv] == nil {
+			hs[sv] = &hstat{}
+		}
+		x := hs[sv]
+		x.Histories++
+		failed := false
+		for _, s := range h.Steps {
+			blob := len(s.Toks) > 0 && s.Toks[len(s.Toks)-1].K == "errblob"
+			switch {
+			case s.FailAt > 0 && s.Crashed:
+				x.FailCrashed++
+				failed = false
+			case s.FailAt > 0 && s.Verdict == "strict" && blob:
+				failed = true
+				if s.Kind == "sse" {
+					x.FailServedSSE++
+				} else {
+					x.FailServedMM++
+				}
+			case s.FailAt == 0 && failed && s.Pos > 1 && s.Verdict == "strict":
+				x.LaterStrict++
+			case s.FailAt == 0 && failed && s.Pos > 1 && s.EOF != "":
+				x.LaterRejected++
+			}
+		}
+	}
+	c.Set("phase_H_histories", hs)
+	type gstat struct {
+		Streams, Strict, BatchesOf2OrMore, AllAlone, InitialBatchedWithIncremental, Crashed int
+	}
+	gs := map[string]*gstat{}
+	for _, s := range scs {
+		g := s.Gen
+		if g == nil {
+			continue
+		}
+		k := g.Variant + "/" + g.Transport + "/" + g.Shape
+		if gs[k] == nil {
+			gs[k] = &gstat{}
+		}
+		x := gs[k]
+		x.Streams++
+		if s.Crashed {
+			x.Crashed++
+		}
+		if s.Verdict != "strict" {
+			continue
+		}
+		x.Strict++
+		if s.Kind != "mm" {
+			continue
+		}
+		multi, alone, parts := false, true, 0
+		for i, t := range s.Toks {
+			if t.K == "incr" {
+				parts++
+				if len(t.IDs) >= 2 {
+					multi, alone = true, false
+				}
+				// `bnd hdr init bnd hdr incr`: written by ONE flush iff no flush ended in between - not
+				// observable from the tokens; count the shape in which Done flushed everything (burst-all)
+				if i == 5 && g.Shape == "burst-all" {
+					x.InitialBatchedWithIncremental++
+				}
+			}
+		}
+		if multi {
+			x.BatchesOf2OrMore++
+		}
+		if alone && parts >= 2 {
+			x.AllAlone++
+		}
+	}
+	c.Set("phase_G_generated_defer", gs)
+	if os.Getenv("VERIF_REPLAY") != "" || c.Violations() > 0 {
+		return
+	}
+	for sv, x := range hs {
+		if x.FailServedSSE == 0 || x.FailServedMM == 0 || x.LaterStrict == 0 {
+			vlib.Infra("vacuous phase H on the %s server: %+v (no request with an unserializable payload was served and followed by accepted requests)", sv, *x)
+		}
+	}
+	burst, alone := 0, 0
+	for k, x := range gs {
+		if strings.Contains(k, "/mixed/") {
+			burst += x.BatchesOf2OrMore
+			alone += x.AllAlone
+		}
+		if x.Strict == 0 {
+			vlib.Infra("vacuous phase G: no stream of %s was accepted", k)
+		}
+	}
+	if burst == 0 || alone == 0 {
+		vlib.Infra("vacuous phase G: multipart streams with a batch of >= 2 incremental payloads: %d, with every payload alone in its part: %d", burst, alone)
+	}
+}
+
+// withHistory is the replay object of a violation observed on a request of a history: the request and
+// all requests of its history (the driver's --replay serves the whole history again).
+func withHistory(s *Scenario, hists []*history) *Scenario {
+	cp := *s
+	for _, h := range hists {
+		if h.ID == s.Hist {
+			for _, p := range h.Steps {
+				q := *p
+				q.HistSteps, q.Stderr, q.RawHead = nil, "", ""
+				cp.HistSteps = append(cp.HistSteps, &q)
+			}
+		}
+	}
+	return &cp
 }
